@@ -47,35 +47,37 @@ func main() {
 		all = append(all, r.Obls...)
 	}
 	w.BG.Discharge(all, gvc.SolverConfig{TimeoutSec: *timeout, Jobs: 16, KeepDir: *keep, AllSolvers: *allSolvers})
-	bad := 0
 	sort.SliceStable(all, func(i, j int) bool { return all[i].Name < all[j].Name })
-	for _, o := range all {
-		ok := o.Result == "unsat"
-		if o.Canary {
-			ok = !ok
+	if *verbose {
+		for _, o := range all {
+			fmt.Printf("%-8s %-10s %6.2fs %s  [%s]\n", o.Result, o.Solver, o.Seconds, o.Name, o.Pos)
 		}
-		if !ok {
-			bad++
+	}
+	fails := gvc.Evaluate(all)
+	for _, f := range fails {
+		o := f.Obl
+		fmt.Printf("FAIL %-8s %6.2fs %s  [%s] %s\n", f.Reason, o.Seconds, f.Name, o.Pos, o.Clause)
+		g := o.Goal.String()
+		if len(g) > 600 {
+			g = g[:600] + "..."
 		}
-		if !ok || *verbose {
-			fmt.Printf("%-6v %-8s %-10s %6.2fs %s  [%s] %s\n", ok, o.Result, o.Solver, o.Seconds, o.Name, o.Pos, o.Clause)
-			if *allSolvers {
-				for s, out := range o.Outputs {
-					fmt.Printf("        %s: %s\n", s, strings.SplitN(out, "\n", 2)[0])
-				}
+		fmt.Println("      goal:", g)
+		if *allSolvers {
+			for s, out := range o.Outputs {
+				fmt.Printf("        %s: %s\n", s, strings.SplitN(out, "\n", 2)[0])
 			}
-			if !ok && *verbose {
-				for _, t := range o.Trace {
-					fmt.Println("      |", t)
-				}
+		}
+		if *verbose {
+			for _, t := range o.Trace {
+				fmt.Println("      |", t)
 			}
 		}
 		if *dump != "" && strings.Contains(o.Name, *dump) {
 			fmt.Println(o.Script)
 		}
 	}
-	fmt.Printf("%d obligations, %d not as expected\n", len(all), bad)
-	if bad > 0 {
+	fmt.Printf("%d obligations, %d failures\n", len(all), len(fails))
+	if len(fails) > 0 {
 		os.Exit(1)
 	}
 }
